@@ -93,7 +93,7 @@ pub fn check_keys(c: &KeyCase) -> Verdict {
     let ignored_test_like = c.hash == HashId::Sha256_256 && c.levels == vec![(1, 5), (1, 5)];
     let root = c.levels[0];
     pass(
-        format!("{}|L{}|rootW{}H{}|{}|{}", c.hash.name(), c.levels.len(), root.0, root.1, if c.seed_array_tail.is_some() { "seed-from-array" } else { "seed-slice" }, match c.seed { SeedSpec::Random(_) => "seed-random", SeedSpec::Zero => "seed-zero", SeedSpec::Ones => "seed-ones", SeedSpec::SingleBit(_) => "seed-bit" }),
+        format!("{}|L{}|rootW{}H{}|{}|{}", c.hash.name(), c.levels.len(), root.0, root.1, if c.seed_array_tail.is_some() { "seed-from-array" } else { "seed-slice" }, match c.seed { SeedSpec::Random(_) => "seed-random", SeedSpec::Zero => "seed-zero", SeedSpec::Ones => "seed-ones", SeedSpec::SingleBit(_) => "seed-bit", SeedSpec::Pattern(..) => "seed-pattern" }),
         !ignored_test_like,
     )
 }
